@@ -5,7 +5,15 @@ package hc
 // RNG is splitmix64; every random choice of a run derives from one VERIF_SEED.
 type RNG struct{ s uint64 }
 
-func NewRNG(seed uint64) *RNG { return &RNG{s: seed*0x9E3779B97F4A7C15 + 0x1234567} }
+func NewRNG(seed uint64) *RNG {
+	// The seed is hashed (splitmix64 finaliser) so that neighbouring seeds give unrelated streams;
+	// a plain `seed*φ` start would make seed n+1 the stream of seed n shifted by one draw.
+	z := seed + 0x9E3779B97F4A7C15
+	z = (z ^ (z >> 30)) * 0xBF58476D1CE4E5B9
+	z = (z ^ (z >> 27)) * 0x94D049BB133111EB
+	z ^= z >> 31
+	return &RNG{s: z ^ 0x1234567}
+}
 
 func (r *RNG) U64() uint64 {
 	r.s += 0x9E3779B97F4A7C15
